@@ -119,8 +119,11 @@ Inductive eff :=
 | EMmTmp
 | EMmSet (l : list seg)
 | EMmRemove
-| EVtTrunc (org : Z)             (* os.WriteFile(virtualtablenames.txt): open with O_TRUNC ... *)
-| EVtSet (org : Z) (l : list N). (* ... then write the remaining names *)
+| EVtTmp (org : Z)               (* virtualtablenames[-org].txt.tmp created, written, synced *)
+| EVtSet (org : Z) (l : list N)  (* rename(tmp, names file): the org's names become l
+                                    (before the fix: the write that follows the truncation) *)
+| EVtTrunc (org : Z).            (* only in the code before the fix: os.WriteFile opened the names
+                                    file itself with O_TRUNC *)
 
 Definition other_orgs (org : Z) (vt : list (Z * N)) : list (Z * N) :=
   filter (fun v => negb (fst v =? org)%Z) vt.
@@ -139,6 +142,7 @@ Definition apply_eff (st : store) (e : eff) : store :=
   | EMmSet l => mkstore (segmeta st) l (mem st) (mmem st) (dirs st) (unrot st) (seg_tmp st) false (vtables st)
   | EMmRemove => mkstore (segmeta st) [] (mem st) (mmem st) (dirs st) (unrot st) (seg_tmp st) (mm_tmp st) (vtables st)
   | EVtTrunc org => mkstore (segmeta st) (mmeta st) (mem st) (mmem st) (dirs st) (unrot st) (seg_tmp st) (mm_tmp st) (other_orgs org (vtables st))
+  | EVtTmp org => st
   | EVtSet org l => mkstore (segmeta st) (mmeta st) (mem st) (mmem st) (dirs st) (unrot st) (seg_tmp st) (mm_tmp st)
                       (other_orgs org (vtables st) ++ map (pair org) l)
   end.
@@ -240,7 +244,8 @@ Section Pass.
      first, then DeleteSegmentData, then DeleteMetricsSegmentData *)
   (* DeleteEmptyIndices(ingestNodeDir, orgid): every index name of the org that no line of
      segmeta.json (of any org) and no unrotated segment uses is removed with
-     vtable.DeleteVirtualTable, which re-reads the names file and rewrites it in place *)
+     vtable.DeleteVirtualTable, which re-reads the names file, writes the remaining names to
+     <file>.tmp, syncs and renames it over the names file (writeFileAtomically) *)
   Definition in_use (st : store) : list N := map s_table (segmeta st ++ unrot st).
 
   Definition org_tables (org : Z) (st : store) : list N :=
@@ -251,12 +256,26 @@ Section Pass.
     | [] => []
     | t :: r =>
       let cur' := filter (fun x => negb (x =? t)) cur in
-      EVtTrunc org :: EVtSet org cur' :: vt_phase org r cur'
+      EVtTmp org :: EVtSet org cur' :: vt_phase org r cur'
+    end.
+
+  (* the code before the fix rewrote the names file in place: os.WriteFile = open with O_TRUNC,
+     then one write (kept for the refutation C14_unfixed_interrupted_survivor_searchable_refuted) *)
+  Fixpoint vt_phase_unfixed (org : Z) (cands cur : list N) : list eff :=
+    match cands with
+    | [] => []
+    | t :: r =>
+      let cur' := filter (fun x => negb (x =? t)) cur in
+      EVtTrunc org :: EVtSet org cur' :: vt_phase_unfixed org r cur'
     end.
 
   Definition vt_effs (org : Z) (st : store) : list eff :=
     let cur := org_tables org st in
     vt_phase org (ordn (filter (fun t => negb (existsb (N.eqb t) (in_use st))) cur)) cur.
+
+  Definition vt_effs_unfixed (org : Z) (st : store) : list eff :=
+    let cur := org_tables org st in
+    vt_phase_unfixed org (ordn (filter (fun t => negb (existsb (N.eqb t) (in_use st))) cur)) cur.
 
   Definition pass_effs (hz : N) (org : Z) (st : store) : list eff :=
     let le := log_effs hz org st in
@@ -264,11 +283,20 @@ Section Pass.
     let me := met_effs hz org st1 in
     le ++ me ++ vt_effs org (apply_effs me st1).
 
+  Definition pass_effs_unfixed (hz : N) (org : Z) (st : store) : list eff :=
+    let le := log_effs hz org st in
+    let st1 := apply_effs le st in
+    let me := met_effs hz org st1 in
+    le ++ me ++ vt_effs_unfixed org (apply_effs me st1).
+
   Definition run (hz : N) (org : Z) (st : store) : store := apply_effs (pass_effs hz org st) st.
+  Definition run_unfixed (hz : N) (org : Z) (st : store) : store := apply_effs (pass_effs_unfixed hz org st) st.
 
   (* the pass stopped after k primitive effects *)
   Definition interrupted (k : nat) (hz : N) (org : Z) (st : store) : store :=
     apply_effs (firstn k (pass_effs hz org st)) st.
+  Definition interrupted_unfixed (k : nat) (hz : N) (org : Z) (st : store) : store :=
+    apply_effs (firstn k (pass_effs_unfixed hz org st)) st.
 End Pass.
 
 (* process start: the in-memory metadata is rebuilt from the two files
